@@ -56,7 +56,7 @@ pub fn calib<const N: usize>() -> Calib {
     if N > 0 {
         let mut b = new_box::<N>();
         for _ in 0..N {
-            b.push_back(E(0)); // garbage ids: dropping them only logs
+            b.push_back(E::raw(0)); // garbage ids: dropping them only logs
         }
         let base = &*b as *const Cb<N> as usize;
         let mut offs: Vec<usize> = b.iter().map(|e| e as *const E as usize - base).collect();
